@@ -14,7 +14,7 @@ echo "== demo WITHOUT change (expect pass)" >> $LOG
 cargo test --offline -j 8 $DEMO >> $LOG 2>&1; echo "exit=$?" >> $LOG
 git apply $M/patch.diff
 echo "== existing workspace tests WITH change (expect all ok)" >> $LOG
-cargo test --workspace --offline -j 8 -- --skip "$SKIP" 2>&1 | grep -E "^test result|FAILED|panicked|^error" >> $LOG; echo "exit=$?" >> $LOG
+cargo test --workspace --offline --no-fail-fast -j 8 -- --skip "$SKIP" 2>&1 | grep -E "^test result|FAILED|failed|panicked|^error|Running" | grep -B1 -E "^test result|FAILED|failed|panicked|^error" >> $LOG; echo "exit=$?" >> $LOG
 rm -rf $CARGO_TARGET_DIR
 unset CARGO_TARGET_DIR
 for c in "$@"; do
